@@ -1,6 +1,6 @@
 (** Property C20 — Blank-line limits (output stage; the newline passes are contracts, see DESIGN.md). *)
 From Coq Require Import List ZArith Bool.
-From UV Require Import Model.Render Proofs.RenderProofs.
+From UV Require Import Model.Render Model.NlMax Proofs.RenderProofs Proofs.RenderBreaks.
 Import ListNotations.
 Local Open Scope Z_scope.
 
@@ -12,3 +12,35 @@ Theorem C20_newline_chunk_writes_nl_count_breaks : forall o n first c s,
   out s' = repeat NL n ++ out s /\ spaces s' = 0.
 Proof. exact newline_chunk_run. Qed.
 Print Assumptions C20_newline_chunk_writes_nl_count_breaks.
+
+(** the whole chunk list: the stream of events (true = line break, false = visible character, comment or
+    disabled-region code point) of the written symbols is the concatenation of the chunks' contributions - only NEWLINE
+    chunks (nl_count breaks each), backslash-newlines and line feeds inside texts produce a break *)
+Theorem C20_event_stream : forall o last sp l,
+  last <> 13 -> Forall (crfree) l ->
+  flat_map bv (render o last sp l) = flat_map bcontrib l.
+Proof. exact render_breaks. Qed.
+Print Assumptions C20_event_stream.
+
+(** K_nlmax (Model/NlMax.v, extracted and evaluated by the harness on every dumped final chunk list) is sound: a
+    chunk list inside the scope of the property that it accepts is written without any run of more than N line breaks.
+    What remains a contract is that the newline passes deliver such a list. *)
+Theorem C20_checked_lists_have_bounded_runs : forall o N last sp l,
+  last <> 13 -> forallb in_scope l = true -> nlmax_ok N l = true ->
+  forall a b k, flat_map bv (render o last sp l) = a ++ repeat true k ++ b -> (k <= N)%nat.
+Proof. exact nlmax_sound. Qed.
+Print Assumptions C20_checked_lists_have_bounded_runs.
+
+(** non-vacuity: 'a' NEWLINE(2) 'b' NEWLINE(1) is in scope and accepted for N = 2, refused for N = 1; two NEWLINE
+    chunks around an empty (virtual) chunk add up *)
+Definition mkc (k : ckind) (t : list Z) (n : Z) : chunk :=
+  {| ck := k; text := t; col := 1; col_indent := 1; nl_count := n; nl_col := 0; orig_col := 1; orig_prev_sp := 0;
+     preproc := false; was_aligned := false; after_tab := false; lvl_hack := false; is_pp_define := false;
+     is_string := false; is_string_multi := false; is_pp_ignore := false; is_comment_kind := false; seg := [];
+     seg_column := 1; seg_spaces := 0; seg_last := 0; seg_did_nl := false |}.
+Definition ex_list := [mkc CKOther [97] 0; mkc CKNewline [] 2; mkc CKOther [98] 0; mkc CKNewline [] 1].
+Example C20_checker_accepts : forallb in_scope ex_list = true /\ nlmax_ok 2 ex_list = true /\ nlmax_ok 1 ex_list = false.
+Proof. vm_compute. repeat split. Qed.
+Example C20_checker_adds_across_empty_chunks :
+  nlmax_ok 2 [mkc CKOther [97] 0; mkc CKNewline [] 2; mkc CKOther [] 0; mkc CKNewline [] 1; mkc CKOther [98] 0] = false.
+Proof. vm_compute. reflexivity. Qed.
